@@ -4,7 +4,7 @@ LOOP_TRUST = [
     "hand-written model coq/theories/Loop.v of do_remapping_loop_one_device (src/remapping_loop.rs), tied to the code by the loop engine: the real loop is run through the remapping_loop::verif hook against a scripted driver and Loop.run is run on the same answers; calls, send payloads, requested time-outs (tolerance = width of the wall-clock bracket + 5 ms) and return value are compared",
     "transcript checkers coq/theories/LoopMonitors.v (extracted, applied to the real loop's transcripts); the theorems say they never fire on Loop.run",
     "coq/theories/LoopEnv.v: edge-triggered device semantics (hand-written oracle), simulated by the harness' scripted driver",
-    "mapper facts (invariant preserved by step/release_all, output traces well-formed w.r.t. pass+mout, release_all leaves a state equivalent to init) are explicit premises of the C10-C12 theorems that need them; they are discharged in the mapper development",
+    "the mapper facts the loop theorems need (invariant Inv preserved by step/release_all, output traces well-formed w.r.t. pass+mout, the state after release_all is bisimilar to init: MapperInv.v, MapperRefire.v) are proved, not assumed: the only premise of the C10-C12, C20 theorems is for_layout_ok L = true",
     "hand-written model coq/theories/Mapper.v of src/key_transforms.rs (tied to the code by the mapper engine)",
     "gen/Modifiers.v regenerated from is_action_key on every run",
 ]
